@@ -46,6 +46,7 @@ PROPS["C16"] = {
          "quick": {"shards": 4}, "thorough": {"shards": 16}},
         {"test": "TestC16Spacing", "kind": "rapid",
          "quick": {"checks": 400, "shards": 4}, "thorough": {"checks": 6000, "shards": 16}},
+        {"test": "FuzzC16", "kind": "fuzz", "thorough": {"fuzztime": 120}},
     ],
     "min_nontrivial": {"quick": 1000, "thorough": 10000},
 }
@@ -229,4 +230,87 @@ PROPS["C15"] = {
         {"test": "TestC15Trees", "kind": "rapid", "quick": {"checks": 5000, "shards": 4}, "thorough": {"checks": 200000, "shards": 12}},
     ],
     "min_nontrivial": {"quick": 5000, "thorough": 50000},
+}
+
+PROPS["C06"] = {
+    "level": "exploration",
+    "design_ref": "DESIGN.md §4.6",
+    "technique": "grammar-based generation + single-edit corruption + long-input families (rapid), and native coverage-guided go fuzzing with a seeded corpus in the thorough tier; crash/termination oracle inside the target, per-process isolation with a case journal for fatal runtime errors",
+    "level_text": "Search for crashes, not proof of their absence: (1) statements of the full language (exotic constructs on) over hostile stores "
+                  "(empty, non-numeric, mixed-type JSON, non-UTF-8, extreme numbers); (2) single and double edits of them (delete / duplicate / swap / "
+                  "replace / insert token, flip byte, truncate, unbalance bracket or quote, splice two statements, pad); (3) long inputs up to 8 KB "
+                  "(deep parentheses, ! chains, 1500-term operator chains, long IN lists, 300-link alias chains); (4) the README/spec examples and "
+                  "the crashers named in the property; (5) thorough tier: go test -fuzz on (query, store selector) seeded with all of the above. "
+                  "Each case is planned, drained with Next and with Batch at batch sizes 1,2,3,32 and every error is bound and rendered with three "
+                  "paddings. A recovered panic, a drain exceeding the deterministic poll cap, >30 CPU-seconds for one case, or the death of the "
+                  "worker process (stack overflow and other fatal errors bypass recover; the driver attributes them through the case journal) "
+                  "is a violation.",
+    "level_note": "The poll cap (4*pairs + len(query) + 64 polls) is deterministic, no wall clock is used as a correctness signal. "
+                  "Native fuzzing cannot be pinned to a seed; its saved failing input is the reproducible unit. Cache-off exponential alias fan-out is not explored.",
+    "rule": "rapid legs Grammar/Corrupt + deterministic legs Long/Seeds (+ native fuzz executions in the thorough tier, counted as evaluations only). "
+            "Non-trivial = the statement reached execution (plan built and at least one storage read) or it was rejected with a positional error; "
+            "distinct = distinct (query text, store size).",
+    "assumptions": COMMON_ASSUMPTIONS + ["keys are non-empty and values non-nil (a nil value means 'missing key' to the library)"],
+    "legs": [
+        {"test": "TestC06Seeds", "kind": "enum", "quick": {"shards": 1}, "thorough": {"shards": 1}},
+        {"test": "TestC06Long", "kind": "enum", "quick": {"shards": 2}, "thorough": {"shards": 4}},
+        {"test": "TestC06Grammar", "kind": "rapid", "quick": {"checks": 4000, "shards": 4, "shrink": "15s"}, "thorough": {"checks": 150000, "shards": 8}},
+        {"test": "TestC06Corrupt", "kind": "rapid", "quick": {"checks": 6000, "shards": 4, "shrink": "15s"}, "thorough": {"checks": 300000, "shards": 8}},
+        {"test": "FuzzC06", "kind": "fuzz", "thorough": {"fuzztime": 600}},
+    ],
+    "min_nontrivial": {"quick": 10000, "thorough": 200000},
+    "timeout": {"quick": 900, "thorough": 7200},
+}
+
+PROPS["C14"] = {
+    "level": "exploration",
+    "design_ref": "DESIGN.md §4.14",
+    "technique": "typed-grammar generation of well-typed statements and single-fault mutants planted at every syntactic position (deterministic fault x position grid + rapid); accept / reject-with-zero-storage-calls oracle on an instrumented store",
+    "level_text": "Two-sided exploration of the static checker. Rejection leg: a catalogue of 30 clear-cut faults (text operand of - * /, text + number, "
+                  "number operand of ^= ~=, text compared with number, non-Boolean operand of & | and or !, wrong IN item / BETWEEN bound type, unknown "
+                  "function, wrong argument count, value inside PUT, key/value inside REMOVE, non-Boolean WHERE) is planted (a) deterministically in every "
+                  "cell of a fault x position grid of 36 skeleton positions (both sides of & | and or, under !, nested under !, call / var-arg / aggregate "
+                  "arguments, IN left side and items, BETWEEN bounds, index base, select fields, fields referenced from WHERE / ORDER BY / GROUP BY, "
+                  "arithmetic around aggregates, DELETE, PUT key/value, REMOVE) and (b) by rapid at a random node of generated statements; BuildPlan "
+                  "over an instrumented store must return an error and the store must have seen zero calls. Acceptance leg: statements of the typed "
+                  "grammar must build and, drained in both modes over stores of the kind their conversions accept, must never fail with an "
+                  "operand-type class error.",
+    "level_note": "Operand-type error = message contains one of: wrong type, not boolean, not string, not number, parameter type, not list/List/JSON, "
+                  "require number/string type, Cannot find function, arguments but got. JSON field access is excluded from the acceptance leg as the "
+                  "property says. The acceptance leg only asserts acceptance for the sub-language of DESIGN.md §2.2.",
+    "rule": "deterministic fault x position grid (each cell once) + rapid mutants + rapid well-typed statements. Non-trivial = a mutant whose fault is "
+            "not at the root of WHERE / a select field / a PUT or REMOVE operand, a grid cell, or a well-typed statement with at least two operators; "
+            "distinct = distinct statements.",
+    "assumptions": COMMON_ASSUMPTIONS,
+    "legs": [
+        {"test": "TestC14Positions", "kind": "enum", "quick": {"shards": 1}, "thorough": {"shards": 1}},
+        {"test": "TestC14Mutants", "kind": "rapid", "quick": {"checks": 5000, "shards": 3}, "thorough": {"checks": 150000, "shards": 8}},
+        {"test": "TestC14WellTyped", "kind": "rapid", "quick": {"checks": 5000, "shards": 3}, "thorough": {"checks": 150000, "shards": 8}},
+    ],
+    "min_nontrivial": {"quick": 5000, "thorough": 100000},
+}
+
+PROPS["C17"] = {
+    "level": "exploration",
+    "design_ref": "DESIGN.md §4.17",
+    "technique": "rapid-generated erroneous statements (token corruptions, typed mutants, run-time failures) x leading/trailing blanks x padding settings; position-in-token-starts and caret-arithmetic oracle on the rendered text; native fuzzing in the thorough tier",
+    "level_text": "Randomised exploration of error positions: corrupted statements (short and lengthened beyond the 70-character window, fault early or late), "
+                  "statically ill-typed mutants and valid statements that fail at run time over hostile stores, each with 0-50 leading and trailing blanks "
+                  "and one of four padding settings (default 7, SetPadding(0), SetPadding(20), DefaultErrorPadding=3). For every positional error: "
+                  "Pos is -1 or inside the query; for plan-time syntax errors Pos is 0 or a token start (engine lexer and reference tokeniser); after "
+                  "BindQuery the text has exactly query / caret / message lines, the window (minus '... ' / ' ...') is the stretch of the query that "
+                  "puts query[Pos] exactly above the caret (end of the trimmed text for -1, first non-blank for offsets inside leading blanks), and the "
+                  "message line is indented by the padding.",
+    "level_note": "Single-line queries only (the window logic is line oriented); crashes while rendering are C06's subject and are also reported here as violations of the render leg.",
+    "rule": "rapid legs Corrupt / RunTime / Typed (+ native fuzz executions in the thorough tier). Non-trivial = a positional error with Pos >= 0 in a "
+            "query longer than 70 bytes or with leading blanks; distinct = distinct (query, padding mode).",
+    "assumptions": ["Go toolchain and pgregory.net/rapid v1.3.0 are trusted", "token starts are taken from the engine lexer (validated by C16) and from the reference tokeniser"],
+    "legs": [
+        {"test": "TestC17Corrupt", "kind": "rapid", "quick": {"checks": 5000, "shards": 4}, "thorough": {"checks": 200000, "shards": 8}},
+        {"test": "TestC17RunTime", "kind": "rapid", "quick": {"checks": 2500, "shards": 2}, "thorough": {"checks": 100000, "shards": 4}},
+        {"test": "TestC17Typed", "kind": "rapid", "quick": {"checks": 2500, "shards": 2}, "thorough": {"checks": 100000, "shards": 4}},
+        {"test": "FuzzC17", "kind": "fuzz", "thorough": {"fuzztime": 300}},
+    ],
+    "min_nontrivial": {"quick": 5000, "thorough": 100000},
+    "timeout": {"quick": 900, "thorough": 7200},
 }
